@@ -6,9 +6,9 @@
 package main
 
 import (
-	"golang.org/x/tools/go/ssa"
 	"encoding/json"
 	"fmt"
+	"golang.org/x/tools/go/ssa"
 	"os"
 	"sort"
 	"strings"
@@ -126,6 +126,7 @@ func runProp(id, tier string) int {
 	}
 	if tier == "thorough" && os.Getenv("VERIF_NO_MUTANTS") == "" {
 		runMutants(c)
+		runBenign(c)
 	}
 	return c.Finish()
 }
@@ -150,7 +151,6 @@ func dumpCmd(args []string) {
 		}
 	}
 }
-
 
 func idxs(bs []*ssa.BasicBlock) []int {
 	var out []int
